@@ -205,3 +205,128 @@ Proof.
     + apply N.ltb_ge in Em. eapply IH; [exact Hex| | | |exact Hb]; lia.
   - apply N.ltb_ge in E. injection Hb as <-. lia.
 Qed.
+
+(* ------------------------------------------------------------------ completeness and range of the estimate *)
+
+Lemma bin_search_le : forall fuel ex lo hi h,
+  lo + 1 < U64 -> 2 * hi <= U64 -> bin_search fuel ex lo hi = BHi h -> h <= hi /\ (lo < hi -> lo < h).
+Proof.
+  induction fuel as [|f IH]; intros ex lo hi h Hl Hw Hb; cbn [bin_search] in Hb; [discriminate|].
+  rewrite (N.mod_small (lo + 1)) in Hb by exact Hl.
+  destruct (lo + 1 <? hi) eqn:E.
+  - apply N.ltb_lt in E. rewrite (N.mod_small (hi + lo)) in Hb by (unfold U64 in *; lia).
+    set (mid := (hi + lo) / 2) in *.
+    assert (Hm1 : lo < mid) by (subst mid; lia).
+    assert (Hm2 : mid < hi) by (subst mid; lia).
+    destruct (ex mid); try discriminate Hb.
+    + destruct (IH ex lo mid h Hl ltac:(lia) Hb) as [A B]. split; [lia|intros _; apply B; exact Hm1].
+    + destruct (IH ex mid hi h ltac:(unfold U64 in *; lia) Hw Hb) as [A B]. split; [exact A|intros _; specialize (B Hm2); lia].
+    + destruct (IH ex mid hi h ltac:(unfold U64 in *; lia) Hw Hb) as [A B]. split; [exact A|intros _; specialize (B Hm2); lia].
+    + destruct (IH ex mid hi h ltac:(unfold U64 in *; lia) Hw Hb) as [A B]. split; [exact A|intros _; specialize (B Hm2); lia].
+    + destruct (IH ex mid hi h ltac:(unfold U64 in *; lia) Hw Hb) as [A B]. split; [exact A|intros _; specialize (B Hm2); lia].
+  - injection Hb as <-. split; [lia|auto].
+Qed.
+
+Lemma bin_search_no_err : forall fuel ex lo hi, (forall g, ex g <> ExErr) -> bin_search fuel ex lo hi <> BErr.
+Proof.
+  induction fuel as [|f IH]; intros ex lo hi Hne; cbn [bin_search]; [discriminate|].
+  destruct ((lo + 1) mod U64 <? hi); [|discriminate].
+  set (mid := ((hi + lo) mod U64) / 2).
+  destruct (ex mid) eqn:E; try (apply IH; exact Hne). exfalso. exact (Hne mid E).
+Qed.
+
+(* no false "gas required exceeds allowance": if the call succeeds with the highest gas limit that may be
+   tried and no probe hits a consensus error, an estimate is returned, and it lies in (20999, cap] *)
+Lemma estimate_complete : forall ex gas_cap args_gas max_gas,
+  TxGas <= gas_cap -> 2 * est_hi gas_cap args_gas max_gas <= U64 ->
+  (forall g, ex g <> ExErr) -> ex (est_hi gas_cap args_gas max_gas) = ExOk ->
+  exists g, estimate_gas ex gas_cap args_gas max_gas = EstOk g /\ g <= est_hi gas_cap args_gas max_gas /\
+            (TxGas <= est_hi gas_cap args_gas max_gas -> TxGas <= g).
+Proof.
+  intros ex gas_cap args_gas max_gas Hcap Hw Hne Hok. unfold estimate_gas.
+  replace (gas_cap <? TxGas) with false by (symmetry; apply N.ltb_ge; exact Hcap).
+  set (cap := est_hi gas_cap args_gas max_gas) in *.
+  assert (Hl : TxGas - 1 + 1 < U64) by (vm_compute; reflexivity).
+  pose proof (bin_search_fuel 64 est_fuel ex (TxGas - 1) cap Hl Hw) as Hf.
+  pose proof (bin_search_no_err est_fuel ex (TxGas - 1) cap Hne) as He.
+  destruct (bin_search est_fuel ex (TxGas - 1) cap) as [| |hi] eqn:Eb.
+  - exfalso. apply Hf; [rewrite pow2_64; unfold U64 in *; lia|unfold est_fuel; lia|reflexivity].
+  - exfalso. apply He. reflexivity.
+  - destruct (bin_search_le est_fuel ex (TxGas - 1) cap hi Hl Hw Eb) as [A B].
+    destruct (hi =? cap) eqn:Ec.
+    + apply N.eqb_eq in Ec. subst hi. rewrite Hok. exists cap. repeat split; auto; lia.
+    + exists hi. split; [reflexivity|]. split; [exact A|]. intros Hc. unfold TxGas in *. lia.
+Qed.
+
+(* the estimate never exceeds the highest gas limit that may be tried *)
+Lemma estimate_le_cap : forall ex gas_cap args_gas max_gas g,
+  2 * est_hi gas_cap args_gas max_gas <= U64 ->
+  estimate_gas ex gas_cap args_gas max_gas = EstOk g -> g <= est_hi gas_cap args_gas max_gas.
+Proof.
+  intros ex gas_cap args_gas max_gas g Hw H. unfold estimate_gas in H.
+  destruct (gas_cap <? TxGas); [discriminate|].
+  set (cap := est_hi gas_cap args_gas max_gas) in *.
+  assert (Hl : TxGas - 1 + 1 < U64) by (vm_compute; reflexivity).
+  destruct (bin_search est_fuel ex (TxGas - 1) cap) as [| |hi] eqn:Eb; try discriminate.
+  destruct (bin_search_le est_fuel ex (TxGas - 1) cap hi Hl Hw Eb) as [A _].
+  destruct (hi =? cap); [destruct (ex hi); try discriminate|]; injection H as <-; exact A.
+Qed.
+
+(* the cap itself: never above the node's gas cap (when one is set), whatever the request asks for *)
+Lemma est_hi_le_gas_cap : forall gas_cap args_gas max_gas, gas_cap <> 0 -> est_hi gas_cap args_gas max_gas <= gas_cap.
+Proof.
+  intros gas_cap args_gas max_gas Hz. unfold est_hi.
+  apply N.eqb_neq in Hz. rewrite Hz. cbn [negb andb].
+  match goal with |- (if ?c then _ else _) <= _ => destruct c eqn:E end; [lia|apply N.ltb_ge in E; exact E].
+Qed.
+
+(* ------------------------------------------------------------------ histories *)
+
+Lemma run_hist_erase : forall R (h : list (hop R)) ctx, Forall hop_commit_free h ->
+  h_state (run_hist ctx h) = h_state (run_hist ctx (filter is_deliver h)) /\
+  h_delivered (run_hist ctx h) = h_delivered (run_hist ctx (filter is_deliver h)).
+Proof.
+  induction h as [|o r IH]; intros ctx Hcf; [split; reflexivity|].
+  inversion Hcf as [|? ? Ho Hr]; subst.
+  destruct o as [p|rb p|p d]; cbn [run_hist filter is_deliver].
+  - cbn in Ho. rewrite (query_pure R p ctx [] Ho). cbn [fst h_state h_delivered]. apply IH, Hr.
+  - rewrite (surjective_pairing (trial_exec ctx [] rb p)), trial_exec_pure. cbn [fst h_state h_delivered]. apply IH, Hr.
+  - destruct (run_commit ctx [] p d) as [c' x]. cbn [h_state h_delivered].
+    destruct (IH c' Hr) as [A B]. split; [exact A|rewrite B; reflexivity].
+Qed.
+
+Lemma run_hist_app : forall R (a b : list (hop R)) ctx,
+  run_hist ctx (a ++ b) =
+  let ra := run_hist ctx a in let rb := run_hist (h_state ra) b in
+  mkHres (h_state rb) (h_answers ra ++ h_answers rb) (h_delivered ra ++ h_delivered rb).
+Proof.
+  induction a as [|o r IH]; intros b ctx; cbn [app run_hist].
+  - cbn. destruct (run_hist ctx b); reflexivity.
+  - destruct o as [p|rb p|p d].
+    + rewrite IH. reflexivity.
+    + destruct (trial_exec ctx [] rb p) as [c' x]. rewrite IH. reflexivity.
+    + destruct (run_commit ctx [] p d) as [c' x]. rewrite IH. reflexivity.
+Qed.
+
+(* the answer of a query anywhere in a history is the function run_no_commit of (the state produced by the
+   transactions delivered before it, the request) -- nothing any earlier query, trace, estimate or
+   check-tx did can influence it *)
+Lemma history_query_answer : forall R (pre post : list (hop R)) p ctx, Forall hop_commit_free pre ->
+  nth_error (h_answers (run_hist ctx (pre ++ HQuery p :: post))) (length (h_answers (run_hist ctx pre))) =
+  Some (run_no_commit (h_state (run_hist ctx (filter is_deliver pre))) [] p).
+Proof.
+  intros R pre post p ctx Hcf. rewrite run_hist_app. cbn zeta. cbn [h_answers run_hist].
+  rewrite nth_error_app2 by lia. rewrite Nat.sub_diag. cbn [nth_error].
+  destruct (run_hist_erase R pre ctx Hcf) as [A _]. rewrite A. reflexivity.
+Qed.
+
+(* a query immediately followed by the delivery of the same call: same result *)
+Lemma history_predicts : forall R (pre post : list (hop R)) p d ctx, commit_free p ->
+  let r := run_hist (h_state (run_hist ctx pre)) (HQuery p :: HDeliver p d :: post) in
+  hd_error (h_answers r) = hd_error (h_delivered r).
+Proof.
+  intros R pre post p d ctx Hcf. cbn zeta. set (c := h_state (run_hist ctx pre)).
+  cbn [run_hist]. rewrite (query_pure R p c [] Hcf). cbn [fst].
+  destruct (call_predicts_deliver R p c [] d Hcf) as [A _].
+  destruct (run_commit c [] p d) as [c' x]. cbn [snd] in A. cbn. rewrite A. reflexivity.
+Qed.
